@@ -127,6 +127,20 @@ class Check(object):
             self.samples.append({"obligation": s["name"], "verdict": s["verdict"], "solver": s.get("solver"), "lemma_instances": s.get("n_lemmas")})
         return res
 
+    def lemmas(self, names):
+        """pure-specification lemmas over contracts (LEMMAS in the contract files)"""
+        eng = self.engine
+        obls = []
+        for n in names:
+            obls.extend(eng.verify_lemma(n))
+        res = discharge(obls, timeout=self.timeout(), engine=eng)
+        self.obl_results.extend(res)
+        for r in res:
+            if r["kind"] == "reach":
+                continue
+            if r["verdict"] != "unsat":
+                self.findings.append(Finding("obligation", r["name"], "lemma %s not discharged (%s)" % (r["name"], r["verdict"]), {"obligation": r["name"], "solver_log": [list(map(str, x)) for x in r.get("log", [])]}, None, False))
+
     def failed_obligation(self, r, obl, q, concrete_cfg):
         detail = "obligation %s not discharged (%s)" % (r["name"], r["verdict"])
         replay = {"obligation": r["name"], "function": q, "verdict": r["verdict"], "solver_log": [list(map(str, x)) for x in r.get("log", [])], "model": (r.get("model") or "")[:4000], "line": obl.line}
@@ -319,3 +333,44 @@ def main(run):
         print("CHECKER-FAULT: unexpected exception in the checker")
         sys.exit(3)
     sys.exit(rc)
+
+
+def run_selftest(check, mutant_files, select):
+    """thorough tier: every seeded property-breaking mutant of the verified functions must fail an obligation
+    (guards against a vacuous / unsound engine).  A surviving mutant is a checker fault."""
+    import importlib.util
+    import shutil
+
+    from . import mutate
+
+    results = []
+    for mf in mutant_files:
+        spec = importlib.util.spec_from_file_location("m", os.path.join(VERIF, "selftest", mf))
+        m = importlib.util.module_from_spec(spec)
+        spec.loader.exec_module(m)
+        for name, rel, old, new in m.MUTANTS:
+            d = mutate.scratch_copy(check.engine.repo.root)
+            try:
+                mutate.apply(d, rel, old, new)
+                eng = Engine(repo_root=d)
+                obls = []
+                rejected = []
+                for q in select(eng):
+                    r = eng.verify_function(q)
+                    if r["status"] != "ok":
+                        rejected.append(q)
+                    obls += r["obligations"]
+                res = discharge(obls, timeout=20, engine=eng)
+                bad = [r for r in res if r["kind"] != "reach" and r["verdict"] != "unsat"]
+                results.append({"mutant": name, "failed_obligations": len(bad), "rejected": rejected, "first": bad[0]["name"] if bad else None})
+            finally:
+                shutil.rmtree(d, ignore_errors=True)
+    expected_pass = set(getattr(m, "BENIGN", []))
+    for r in results:
+        benign = r["mutant"].endswith("-ok")
+        if not benign and r["failed_obligations"] == 0 and not r["rejected"]:
+            raise CheckerFault("seeded mutant %s was not detected" % r["mutant"])
+        if benign and r["failed_obligations"] > 0:
+            raise CheckerFault("benign mutant %s raised an alarm (%s)" % (r["mutant"], r["first"]))
+    check.extra.setdefault("selftest_mutants", []).extend(results)
+    return results
